@@ -943,17 +943,17 @@ def probe_mark():
     import time
     from labtech.lab import Lab
     from lv_probe_types import PLeaf
-    logging.getLogger('labtech').setLevel(logging.CRITICAL)
     d = tempfile.mkdtemp(prefix='lvprobe_mark')
     try:
         t = PLeaf(x=41)
-        lab = Lab(storage=d, runner_backend='serial', notebook=False)
-        lab.run_tasks([t], disable_progress=True, disable_top=True)
-        m1 = t.result_meta
-        time.sleep(0.01)
-        t0 = __import__('datetime').datetime.now()
-        lab.run_tasks([t], bust_cache=True, disable_progress=True, disable_top=True)
-        m2 = t.result_meta
+        with _quiet():
+            lab = Lab(storage=d, runner_backend='serial', notebook=False)
+            lab.run_tasks([t], disable_progress=True, disable_top=True)
+            m1 = t.result_meta
+            time.sleep(0.01)
+            t0 = __import__('datetime').datetime.now()
+            lab.run_tasks([t], bust_cache=True, disable_progress=True, disable_top=True)
+            m2 = t.result_meta
         if m1 is None or m2 is None or m1.start is None or m2.start is None:
             return None
         if m2.start >= t0:
@@ -995,12 +995,12 @@ def probe_ctx_binding():
     import logging
     from labtech.lab import Lab
     from lv_probe_types import PCtxAll
-    logging.getLogger('labtech').setLevel(logging.CRITICAL)
-    lab = Lab(storage=None, runner_backend='serial', context={'a': 1}, notebook=False)
     t1, t2 = PCtxAll(n=1), PCtxAll(n=2)
-    r1 = lab.run_tasks([t1], disable_progress=True, disable_top=True).get(t1)
-    lab.context = {'a': 2, 'b': 3}
-    r2 = lab.run_tasks([t2], disable_progress=True, disable_top=True).get(t2)
+    with _quiet():
+        lab = Lab(storage=None, runner_backend='serial', context={'a': 1}, notebook=False)
+        r1 = lab.run_tasks([t1], disable_progress=True, disable_top=True).get(t1)
+        lab.context = {'a': 2, 'b': 3}
+        r2 = lab.run_tasks([t2], disable_progress=True, disable_top=True).get(t2)
     if r1 != [('a', 1)]:
         return None
     if r2 == [('a', 2), ('b', 3)]:
@@ -1016,10 +1016,10 @@ def probe_view():
     import logging
     from labtech.lab import Lab
     from lv_probe_types import PLeaf, PSum
-    logging.getLogger('labtech').setLevel(logging.CRITICAL)
     first, top = PLeaf(x=1), PSum(dep=PLeaf(x=2))
-    lab = Lab(storage=None, runner_backend='fork', max_workers=1, continue_on_failure=True, notebook=False)
-    res = lab.run_tasks([first, top], disable_progress=True, disable_top=True)
+    with _quiet():
+        lab = Lab(storage=None, runner_backend='fork', max_workers=1, continue_on_failure=True, notebook=False)
+        res = lab.run_tasks([first, top], disable_progress=True, disable_top=True)
     if res.get(first) != 1:
         return None
     if top in res:
